@@ -97,6 +97,33 @@ fn run_child(args: &[String], stdin_text: &str, home: &str) -> Result<ChildOut, 
     Ok(ChildOut { stdout: t1.join().unwrap_or_default(), stderr: t2.join().unwrap_or_default(), code, timed_out })
 }
 
+/// What interactive mode prints before and between commands is learned from the binary itself (so that a
+/// re-worded banner or prompt is not mistaken for a difference): with empty stdin it prints banner + one
+/// prompt, with one empty line banner + two prompts.
+fn learn_banner_and_prompt(home: &str) -> Option<(String, String)> {
+    let a = run_child(&[], "", home).ok()?;
+    let b = run_child(&[], "\n", home).ok()?;
+    if a.timed_out || b.timed_out || !b.stdout.starts_with(&a.stdout) {
+        return None;
+    }
+    let prompt = b.stdout[a.stdout.len()..].to_string();
+    if prompt.is_empty() || !a.stdout.ends_with(&prompt) {
+        return None;
+    }
+    let banner = a.stdout[..a.stdout.len() - prompt.len()].to_string();
+    Some((banner, prompt))
+}
+
+fn strip_learned(s: &str, banner: &str, prompt: &str) -> String {
+    let s = s.strip_prefix(banner).unwrap_or(s);
+    // generated programs never print the prompt text
+    let s = s.replace(prompt, "");
+    let p = prompt.trim_end();
+    let s = if !p.is_empty() { s.strip_suffix(p).unwrap_or(&s).to_string() } else { s };
+    s
+}
+
+#[allow(dead_code)]
 fn strip_banner(s: &str) -> String {
     // rustyline echoes its prompt even when stdin is a pipe: remove the `] ` prompts of interactive mode
     // (generated programs never print a `]`)
@@ -248,6 +275,11 @@ fn run_case(ctx: &Ctx, index: u64, rep: &mut Report) {
                 rep.inconclusive.push("cannot write scratch program file".into());
                 return;
             }
+            let Some((banner, prompt)) = learn_banner_and_prompt(&dir) else {
+                rep.inconclusive.push("could not learn the interactive banner/prompt of the abasic binary".into());
+                let _ = std::fs::remove_dir_all(&dir);
+                return;
+            };
             let mut warnings_seen = 0u64;
             let mut traces_seen = 0u64;
             for combo in 0..8u32 {
@@ -286,9 +318,16 @@ fn run_case(ctx: &Ctx, index: u64, rep: &mut Report) {
                 }
                 rep.add("cli.child_runs", 2);
                 let fo = fm.stdout.trim_end().to_string();
-                let io = strip_banner(&im.stdout).trim_end().to_string();
-                let fe = strip_analysis(&fm.stderr).trim_end().to_string();
+                let io = strip_learned(&im.stdout, &banner, &prompt).trim_end().to_string();
                 let ie = im.stderr.trim_end().to_string();
+                // file mode prints its static-analysis messages first (check on), then the run's own records:
+                // the run's part is the tail of the same length as the interactive session's stderr
+                let fe_full = fm.stderr.trim_end().to_string();
+                let fe = if !skip && fe_full.len() >= ie.len() && fe_full.ends_with(&ie) && (fe_full.len() == ie.len() || fe_full[..fe_full.len() - ie.len()].ends_with('\n') || ie.is_empty()) {
+                    ie.clone()
+                } else {
+                    fe_full
+                };
                 warnings_seen += ie.matches("WARNING").count() as u64;
                 traces_seen += io.matches('#').count() as u64;
                 if fo != io || fe != ie {
